@@ -18,7 +18,13 @@ BINARY_SAME = ["add", "subtract", "multiply", "maximum", "minimum", "concatenate
 
 
 def known_class(stage, in_shapes):
-    """id of the known finding whose input class contains this stage (C04/C05/C08 classes), or None"""
+    """id of the LISTED known finding whose input class contains this stage (C04/C05/C08 classes), or None (a repaired class is composed again)"""
+    from .core import listed_ids
+    r = _known_class(stage, in_shapes)
+    return r if r and r in listed_ids(r[:3]) else None
+
+
+def _known_class(stage, in_shapes):
     f = stage["f"]
     a = stage.get("a") or {}
     fake = {"op": "pipe", "arrays": [{"shape": list(s), "data": []} for s in in_shapes], "stages": [dict(stage, **{"in": list(range(len(in_shapes)))})]}
